@@ -24,6 +24,15 @@ Proof.
   rewrite H. by apply accepted_iff_acyclic.
 Qed.
 
+(** the task list of an accepted job depends only on the definition; valid acyclic definition: every task after its dependencies *)
+Lemma new_job_task_order s p d v u :
+  job_graph (new_job s p d v u) = sort_tasks (pd_tasks d) ∧
+  (NoDup (map fst (pd_tasks d)) → deps_closed (pd_tasks d) → acyclic (pd_tasks d) → topo (job_graph (new_job s p d v u))).
+Proof.
+  assert (H : job_graph (new_job s p d v u) = sort_tasks (pd_tasks d)) by (by apply job_graph_build).
+  split; [done|]. intros. rewrite H. by apply sort_tasks_topo.
+Qed.
+
 (** ** no dead-lock *)
 Definition terminal (st : status) : Prop := st = Done ∨ st = Skipped ∨ st = Error ∨ st = Canceled.
 
